@@ -18,5 +18,6 @@ CONSTANTS
   MaxFail = 1
   AllowSkip = FALSE
   AllowStop = FALSE
+  AllowBail = FALSE
 INVARIANTS TypeOK ErrorsAccountedR ErrorsAccountedW
 CHECK_DEADLOCK TRUE
